@@ -212,13 +212,20 @@ func c15Oracle(c *C15Case) string {
 		return ""
 	}
 	for i := 1; i < reps; i++ {
+		w0, e0 := TermWidth()
 		cur, pm := c15Eval(c)
+		w1, e1 := TermWidth()
 		if pm != "" {
 			return "evaluation " + fmt.Sprint(i) + " panicked although the first did not: " + pm
 		}
 		for k, v := range first {
 			if cur[k] != v {
-				return fmt.Sprintf("output %q differs between evaluation 1 and %d of the same scenario:\n--- 1 ---\n%s\n--- %d ---\n%s", k, i+1, trunc(diffContext(v, cur[k], true)), i+1, trunc(diffContext(v, cur[k], false)))
+				if ptyOK && (w0 != 100 || w1 != 100) {
+					// the environment changed under the evaluation: no verdict
+					st.Exclude(fmt.Sprintf("terminal width of fd 0 was not stable around an evaluation (%d %v / %d %v)", w0, e0, w1, e1))
+					return ""
+				}
+				return fmt.Sprintf("[terminal width before/after: %d %v / %d %v] ", w0, e0, w1, e1) + fmt.Sprintf("output %q differs between evaluation 1 and %d of the same scenario:\n--- 1 ---\n%s\n--- %d ---\n%s", k, i+1, trunc(diffContext(v, cur[k], true)), i+1, trunc(diffContext(v, cur[k], false)))
 			}
 		}
 		if len(cur) != len(first) {
